@@ -18,6 +18,8 @@ HCase(id) == IF id = 29 THEN CaseFail ELSE CHOOSE c \in AllCases : c.id = id
 HIn3 == <<HCase(26), HCase(27), HCase(21)>>
 HIn4 == <<HCase(26), HCase(27), HCase(21), CaseFail>>
 CONSTANTS HInputs, HLib
+\* "sub" = explicit inpath (a new list per call) holding the listed files of the force field only.  proc.mac = the parameter-macro table a parser
+\* CLASS would hold (deviation defineLeak, seed7-C13-2: macros met in one call are substituted in every later call).
 \* HLib[i] = [mode, files]: "all" = every file of the force field, explicit inpath (a new list per call); "lib" = the files make up a library,
 \* inpath left at its default; "path" = the files' content is written to the one shared path, which is then passed as inpath
 HL(mode, files) == [mode |-> mode, files |-> files]
@@ -25,16 +27,20 @@ HInL == <<HCase(33), HCase(33), HCase(26)>>       \* the same residue graph on l
 HLibL == <<HL("lib", <<1>>), HL("lib", <<2>>), HL("all", <<>>)>>
 HInP == <<HCase(33), HCase(33), HCase(26)>>       \* the shared path holding the definitions X, then rewritten to Y (or the other way round)
 HLibP == <<HL("path", <<1>>), HL("path", <<2>>), HL("all", <<>>)>>
+\* parameter macros: an input whose .itp uses a bonded type name, an input whose .itp defines a macro of that name, and one reading both files
+HInD == <<HCase(41), HCase(42), HCase(40)>>
+HLibD == <<HL("sub", <<2, 3>>), HL("sub", <<1, 3>>), HL("all", <<>>)>>
 NoLib3 == <<HL("all", <<>>), HL("all", <<>>), HL("all", <<>>)>>
 NoLib4 == <<HL("all", <<>>), HL("all", <<>>), HL("all", <<>>), HL("all", <<>>)>>
 FileRec(F, k) == [syn |-> F.files[k].syn, src |-> k, defs |-> F.files[k].defs]
 LibFiles(i) == [k \in DOMAIN HLib[i].files |-> FileRec(FFof(HInputs[i]), HLib[i].files[k])]
 
-P0 == [ff |-> <<>>, fs |-> [i \in 1..Len(HInputs) |-> <<>>], queue |-> <<>>, dflt |-> <<>>, rc |-> <<>>]
+P0 == [ff |-> <<>>, fs |-> [i \in 1..Len(HInputs) |-> <<>>], queue |-> <<>>, dflt |-> <<>>, rc |-> <<>>, mac |-> <<>>]
 \* what one call reads: explicit files, or (default inpath) ++ (library files)
 \* rc = what a reader that caches by path holds for the shared path (<<>> = nothing yet)
 FilesRead(i, dflt, rc) == IF HLib[i].mode = "all" THEN BasePresentation(FFof(HInputs[i]))
                           ELSE IF HLib[i].mode = "lib" THEN dflt \o LibFiles(i)
+                          ELSE IF HLib[i].mode = "sub" THEN LibFiles(i)
                           ELSE IF Dev.readerCache /\ rc # <<>> THEN rc ELSE LibFiles(i)
 FreshRes(i) == LET c == HInputs[i]
                    L == Loaded(FFof(c), FilesRead(i, <<>>, <<>>), FALSE)
@@ -43,7 +49,7 @@ FreshRes(i) == LET c == HInputs[i]
 RunInMC(i, p) ==
   LET c == HInputs[i]
       cached == Dev.cacheFF /\ c.ff \in DOMAIN p.ff
-      L == IF cached THEN p.ff[c.ff].L ELSE Loaded(FFof(c), FilesRead(i, p.dflt, p.rc), FALSE)
+      L == IF cached THEN p.ff[c.ff].L ELSE LoadedM(FFof(c), FilesRead(i, p.dflt, p.rc), FALSE, Dev.defineLeak, p.mac)
       bx0 == IF cached THEN p.ff[c.ff].bx ELSE FreshBx(FFof(c), L)
       r == PRun(c, L, bx0)
       ok == r.out.err = ""
@@ -58,6 +64,7 @@ RunInMC(i, p) ==
   IN [res |-> [out |-> r.out, file |-> fs2[i]],
       proc |-> [ff |-> IF Dev.cacheFF THEN (c.ff :> [L |-> L, bx |-> r.bx]) @@ p.ff ELSE p.ff, fs |-> fs2, queue |-> q2,
                dflt |-> IF Dev.inpathLeak /\ HLib[i].mode = "lib" THEN p.dflt \o LibFiles(i) ELSE p.dflt,
+               mac |-> IF Dev.defineLeak THEN L.macs ELSE p.mac,
                rc |-> IF Dev.readerCache /\ HLib[i].mode = "path" /\ p.rc = <<>> THEN LibFiles(i) ELSE p.rc]]
 FreshTab == TLCEval([i \in 1..Len(HInputs) |-> FreshRes(i)])
 FreshOf(i) == FreshTab[i]
